@@ -4,6 +4,9 @@ use crate::checker::{Checker, EventuallyBits, Expectation, Path};
 use crate::job_market::JobBroker;
 use crate::{fingerprint, CheckerBuilder, CheckerVisitor, Fingerprint, Model, Property};
 use dashmap::mapref::entry::Entry;
+#[cfg(getong_stateright_verif)]
+use crate::verif::dash::DashMap;
+#[cfg(not(getong_stateright_verif))]
 use dashmap::DashMap;
 use nohash_hasher::NoHashHasher;
 use std::collections::{HashMap, VecDeque};
